@@ -55,7 +55,12 @@ def main(args):
         meta = os.path.join(sd, name, "meta.json")
         patch = os.path.join(sd, name, "patch.diff")
         if os.path.exists(meta) and os.path.exists(patch):
-            prop = json.load(open(meta))["property"]
+            mj_ = json.load(open(meta))
+            prop = mj_["property"]
+            if mj_.get("not_claimed"):
+                # a change that breaks something the property does not state (recorded with the reason): no detection is claimed
+                print(f"{'NOT-CLAIMED':12s} {prop} seed:{name} ({mj_['not_claimed']})", flush=True)
+                continue
             cases.append((f"seed:{name}", prop, patch_applier(patch), True))
     mj = os.path.join(VERIF, "tools", "mutants.json")
     if os.path.exists(mj):
